@@ -174,6 +174,31 @@ pub fn cases(_tier: &str, seed: u64) -> Vec<Case> {
             v.push(c);
         }
     }
+    // every QTYPE word and every QCLASS word on a received question: a supported code is accepted and reported as it
+    // is (the top bit of the class word being the mDNS unicast-response bit), an unsupported one is an error - not an
+    // alias, and not a question of an `Unknown` type
+    for which in 0..2 {
+        for w in 0..=65535u16 {
+            let mut wire = vec![0u8, 1, 0, 0, 0, 1, 0, 0, 0, 0, 0, 0, 1, b'a', 0];
+            if which == 0 { wire.extend_from_slice(&w.to_be_bytes()); wire.extend_from_slice(&[0, 1]); } else { wire.extend_from_slice(&[0, 1]); wire.extend_from_slice(&w.to_be_bytes()); }
+            let parsed = Packet::parse(&wire);
+            let out = match &parsed { Ok(p) => format!("ok {}", crate::text::packet(p)), Err(_) => "err".to_string() };
+            let mut c = Case::new(format!("parse {}", crate::text::hex(&wire)), out).tag(if which == 0 { "question-type" } else { "question-class" });
+            // the model is asked about every 5th word and all the low ones; the oracle below judges every word
+            if w > 600 && w % 5 != 0 && !(32700..32900).contains(&w) { c.proj = Proj::None; c.op = String::new(); }
+            let supported = if which == 0 { !matches!(TYPE::from(w), TYPE::Unknown(_)) || (251..=255).contains(&w) } else { [1u16, 2, 3, 4, 254, 255].contains(&(w & 0x7FFF)) };
+            match &parsed {
+                Ok(p) => {
+                    let q = p.questions.first();
+                    if !supported { c = c.fail("question-alias", format!("a question with {} word {:#06x} is accepted as {:?}", if which == 0 { "QTYPE" } else { "QCLASS" }, w, q.map(|q| (q.qtype, q.qclass)))); }
+                    else if which == 0 && q.map(|q| u16::from(q.qtype)) != Some(w) { c = c.fail("question-read", format!("QTYPE word {:#06x}", w)); }
+                    else if which == 1 && q.map(|q| (u16::from(q.qclass), q.unicast_response)) != Some((w & 0x7FFF, w & 0x8000 != 0)) { c = c.fail("question-read", format!("QCLASS word {:#06x}", w)); }
+                }
+                Err(_) => { if supported { c = c.fail("question-rejected", format!("a question with the supported {} word {:#06x} is rejected", if which == 0 { "QTYPE" } else { "QCLASS" }, w)); } }
+            }
+            v.push(c);
+        }
+    }
     // class matching looks at the class alone, whatever the record's type: an address, a TXT, opaque and empty
     // RDATA, and an OPT-typed record built by hand (its CLASS word on the wire is a payload size, the field is a class)
     for kind in 0..5usize {
